@@ -36,6 +36,8 @@ type gtCert struct {
 	keyUsage   gx509.KeyUsage
 	permitted  []string
 	eku        []gx509.ExtKeyUsage
+	foreign    int  // > 0: re-encoded as another encoder would (extensions rotated by this much) and re-signed by the reference signer
+	extraExt   bool // carries a non-critical extension nobody knows (harmless by definition)
 	ekuUnknown bool // the EKU extension also lists an OID no library knows (alone: a usage nobody can request by name)
 	dns        []string
 	ips        []net.IP
@@ -357,8 +359,11 @@ func runTopology(c *Ctx, ti int, r *mon.RNG) {
 		if g.ekuUnknown {
 			t.UnknownExtKeyUsage = []asn1.ObjectIdentifier{{1, 3, 6, 1, 4, 1, 99999, 7}}
 		}
+		if g.extraExt {
+			t.ExtraExtensions = append(t.ExtraExtensions, pkix.Extension{Id: asn1.ObjectIdentifier{1, 3, 6, 1, 4, 1, 99999, 77}, Critical: false, Value: []byte{4, 2, 0xbe, 0xef}})
+		}
 		if g.critExt {
-			t.ExtraExtensions = []pkix.Extension{{Id: asn1.ObjectIdentifier{1, 3, 6, 1, 4, 1, 99999, 42}, Critical: true, Value: []byte{5, 0}}}
+			t.ExtraExtensions = append(t.ExtraExtensions, pkix.Extension{Id: asn1.ObjectIdentifier{1, 3, 6, 1, 4, 1, 99999, 42}, Critical: true, Value: []byte{5, 0}})
 		}
 		parent := t
 		if issuerTmpl != nil {
@@ -368,6 +373,14 @@ func runTopology(c *Ctx, ti int, r *mon.RNG) {
 		der, err := gx509.CreateCertificate(t, parent, &keyOf[g.keyID].PublicKey, keyOf[signKey])
 		if err != nil {
 			return false
+		}
+		if g.foreign > 0 {
+			if fd := c10Reissue(der, keyOf[signKey], g.foreign, r); fd != nil {
+				der = fd
+				rep.Count("certificates_reissued_with_another_extension_order", 1)
+			} else {
+				g.foreign = 0
+			}
 		}
 		if g.role != "root" && bad(12) { // corrupt the signature of a few certificates
 			der = append([]byte{}, der...)
@@ -417,8 +430,17 @@ func runTopology(c *Ctx, ti int, r *mon.RNG) {
 		}
 		if r.Intn(6) == 0 {
 			g.permitted = []string{"example.com"} // benign for the usual hosts
-			if bad(2) {
+			switch {
+			case bad(2):
 				g.permitted = []string{"other.org", "sub.example.com"}
+			case r.Intn(3) == 0:
+				g.permitted = []string{".example.com"} // subdomains only: the bare domain itself is outside
+			}
+		}
+		if r.Intn(4) == 0 {
+			g.extraExt = true
+			if r.Intn(2) == 0 {
+				g.foreign = 1 + r.Intn(3)
 			}
 		}
 		switch {
@@ -436,8 +458,13 @@ func runTopology(c *Ctx, ti int, r *mon.RNG) {
 	// roots
 	nRoots := 1 + r.Intn(3)
 	var ents []*gtCert // CA certificates usable as issuers
+	dotted := ti%7 == 3 // a root that permits ".example.com" (subdomains only) over leaves that are also valid for the bare domain
 	for i := 0; i < nRoots; i++ {
 		g := mkCA("root", fmt.Sprintf("Root%d-%d", ti, i), newKey())
+		if dotted && i == 0 {
+			g.permitted = []string{".example.com"}
+			rep.Count("topologies_with_a_subdomains-only_name_constraint", 1)
+		}
 		g.issuerName = g.subject
 		g.signerKey = g.keyID
 		if !issue(g, nil) {
@@ -553,8 +580,15 @@ func runTopology(c *Ctx, ti int, r *mon.RNG) {
 			g.dns = []string{fmt.Sprintf("Leaf%d.Example.COM", i), "alt.example.net"}
 		case 4:
 			g.dns = []string{"w*.example.com", "a.*.example.com"}
+		case 5:
+			g.dns = []string{fmt.Sprintf("leaf%d.example.com", i), "example.com"} // also valid for the bare domain (a host the queries ask for)
 		default:
 			g.dns = []string{fmt.Sprintf("leaf%d.example.com", i)}
+		}
+		if dotted && i == 0 {
+			g.dns = []string{fmt.Sprintf("leaf%d.example.com", i), "example.com"}
+			g.issuerName, g.signerKey = ents[0].subject, ents[0].keyID
+			par = ents[0]
 		}
 		if r.Intn(3) == 0 {
 			g.ips = []net.IP{net.IPv4(10, 0, 0, byte(1+i)).To4(), net.ParseIP("2001:db8::7")}
@@ -577,6 +611,12 @@ func runTopology(c *Ctx, ti int, r *mon.RNG) {
 		}
 		if len(g.eku) > 0 && r.Intn(6) == 0 {
 			g.ekuUnknown = true // a known usage next to an unrecognised one: the known one still counts
+		}
+		if r.Intn(3) == 0 {
+			g.extraExt = true
+			if r.Intn(2) == 0 {
+				g.foreign = 1 + r.Intn(3)
+			}
 		}
 		if bad(10) {
 			g.critExt = true
@@ -673,6 +713,9 @@ func runTopology(c *Ctx, ti int, r *mon.RNG) {
 		if dim == 2 || r.Intn(8) == 0 {
 			hsel = r.Intn(15)
 		}
+		if dotted && q%2 == 0 {
+			hsel = 10 // the bare domain
+		}
 		switch hsel {
 		case 0:
 		case 1:
@@ -737,7 +780,7 @@ func runTopology(c *Ctx, ti int, r *mon.RNG) {
 			for _, g := range all {
 				cs = append(cs, map[string]interface{}{"id": g.id, "role": g.role, "subject": g.subject, "key": g.keyID, "issuer": g.issuerName, "signed_by_key": g.signerKey,
 					"valid": [2]string{g.notBefore.Format(time.RFC3339), g.notAfter.Format(time.RFC3339)}, "bc": g.bcValid, "ca": g.isCA, "pathlen": g.pathLen, "ku": int(g.keyUsage),
-					"permitted": g.permitted, "eku": g.eku, "eku_unknown_oid": g.ekuUnknown, "dns": g.dns, "crit": g.critExt, "roots": g.inRoots, "inters": g.inInters, "der": mon.Hex(g.cert.Raw)})
+					"permitted": g.permitted, "reissued_extension_rotation": g.foreign, "eku": g.eku, "eku_unknown_oid": g.ekuUnknown, "dns": g.dns, "crit": g.critExt, "roots": g.inRoots, "inters": g.inInters, "der": mon.Hex(g.cert.Raw)})
 			}
 			return map[string]interface{}{"topology": ti, "certs": cs, "leaf": leaf.id, "time": at.Format(time.RFC3339), "host": host, "usages": usages, "pool_order": idx}
 		}
